@@ -14,9 +14,16 @@ import (
 	"unsafe"
 
 	"github.com/relab/gorums"
+	"github.com/relab/hotstuff"
 	"github.com/relab/hotstuff/core/eventloop"
 	"github.com/relab/hotstuff/core/logging"
 	"github.com/relab/hotstuff/internal/proto/clientpb"
+	"github.com/relab/hotstuff/protocol"
+	"github.com/relab/hotstuff/protocol/consensus"
+	"github.com/relab/hotstuff/protocol/rules"
+	"github.com/relab/hotstuff/security/blockchain"
+	"github.com/relab/hotstuff/security/cert"
+	"github.com/relab/hotstuff/security/crypto"
 	"github.com/relab/hotstuff/server"
 	"google.golang.org/grpc/codes"
 	"google.golang.org/grpc/status"
@@ -145,9 +152,55 @@ func (f *clientioFam) report() string {
 	return fmt.Sprintf("out=[%s] count=%d digest=%x", strings.Join(p, ","), f.srv.CmdCount(), f.srv.Hash().Sum(nil))
 }
 
+// longCommit wires a real Committer (chained HotStuff rules, real block store and view states) and a real ClientIO
+// to ONE event loop of the given queue capacity, stores a chain of k blocks of one command each (all but the newest)
+// and hands the newest to TryCommit — what a replica that catches up does —, then runs the loop until idle.
+func longCommit(capacity, k int) string {
+	logger := logging.New("verif")
+	el := eventloop.New(logger, uint(capacity))
+	env := newCryptoEnv(crypto.NameECDSA, 1)
+	bc := blockchain.New(el, logger, nullSender{})
+	auth := cert.NewAuthority(env.cfgs[0], bc, env.bases[0])
+	vs, err := protocol.NewViewStates(bc, auth)
+	if err != nil {
+		return "error"
+	}
+	cio := server.NewClientIO(el, logger, clientpb.NewCommandCache(1))
+	cm := consensus.NewCommitter(el, logger, bc, vs, rules.NewChainedHotStuff(logger, env.cfgs[0], bc))
+	parent := hotstuff.GetGenesis()
+	var last *hotstuff.Block
+	for v := 1; v <= k; v++ {
+		qc := hotstuff.NewQuorumCert(nil, parent.View(), parent.Hash())
+		batch := &clientpb.Batch{Commands: []*clientpb.Command{{ClientID: 7, SequenceNumber: uint64(v), Data: []byte{byte(v)}}}}
+		b := hotstuff.NewBlock(parent.Hash(), qc, batch, parent.View()+1, 1)
+		if v < k {
+			bc.Store(b)
+		}
+		parent, last = b, b
+	}
+	if last == nil {
+		return "bad-op"
+	}
+	if err := cm.TryCommit(last); err != nil {
+		return "error"
+	}
+	ctx := context.Background()
+	for i := 0; i < 100000 && el.Tick(ctx); i++ {
+	}
+	return fmt.Sprintf("committed=%d count=%d digest=%x", vs.CommittedBlock().View(), cio.CmdCount(), cio.Hash().Sum(nil))
+}
+
 func (f *clientioFam) op(a []string) string {
 	if f.srv == nil {
 		f.reset()
+	}
+	if len(a) == 3 && a[0] == "longcommit" {
+		c, e1 := strconv.Atoi(a[1])
+		k, e2 := strconv.Atoi(a[2])
+		if e1 != nil || e2 != nil || c < 1 || c > 100000 || k < 1 || k > 250 {
+			return "bad-op"
+		}
+		return longCommit(c, k)
 	}
 	if len(a) != 2 {
 		return "bad-op"
